@@ -70,6 +70,8 @@ class SolverDenseLU(LinearSolver):
         r"""  Factorize the matrix as :math:`\mathbf{A}=\mathbf{L}\mathbf{U}`, where :math:`\mathbf{L}` is a lower
         triangular matrix and :math:`\mathbf{U}` is upper triangular.
         """
+        if A.dtype.kind not in 'fc':  # Integer-typed matrices are factorized in floating point
+            A = A.astype(float)
         self.p, self.l, self.u = spla.lu(A)
         return self
 
